@@ -630,9 +630,18 @@ def make_opts(rng, lay, fixed=None):
     return o
 
 
+_THR_COUNT = {'cut': 0, 'force': 0}
+
+
 def make_scenario(rng, fam, lay, fixed=None, thr=None, nan=None):
-    return {'cli': True, 'fam': fam, 'layout': lay, 'opts': make_opts(rng, lay, fixed), 'thr': thr, 'nan': nan,
-            'pick': rng.randrange(1 << 30)}
+    sc = {'cli': True, 'fam': fam, 'layout': lay, 'opts': make_opts(rng, lay, fixed), 'thr': thr, 'nan': nan,
+          'pick': rng.randrange(1 << 30)}
+    if thr:
+        # whether the second run aims just inside or just outside alternates per kind of threshold, whatever the seed: the quick
+        # tier has one scenario of each kind and needs one run on each side (cut: inside, force: outside, then the other way)
+        _THR_COUNT[thr] += 1
+        sc['inside'] = (_THR_COUNT[thr] % 2 == 1) == (thr == 'cut')
+    return sc
 
 
 QUICK_PLAN = [
@@ -748,7 +757,7 @@ def sharpen(sc, ev, rng):
         p, q = f['atoms'][b['a'] - 1]['pos'], f['atoms'][b['b'] - 1]['pos']
         d = math.sqrt(sum((x - y) ** 2 for x, y in zip(p, q)))
         if sc['thr'] == 'cut':
-            inside = rng.random() < 0.5
+            inside = sc['inside'] if 'inside' in sc else rng.random() < 0.5
             up = int(math.ceil(d)) + TOL + 1 if inside else int(math.floor(d)) - TOL - 1
             if up < 3000:
                 continue
@@ -758,7 +767,7 @@ def sharpen(sc, ev, rng):
             lo, hi = f['klo'][b['a'] - 1][b['b'] - 1], f['khi'][b['a'] - 1][b['b'] - 1]
             if hi >= o['base'] or lo <= 20:
                 continue
-            inside = rng.random() < 0.5
+            inside = sc['inside'] if 'inside' in sc else rng.random() < 0.5
             opts['em'] = (lo - 5) / MICRO if inside else (hi + 5) / MICRO
             return opts, {'pair': [b['a'], b['b']], 'inside': inside}
     return None, None
